@@ -46,6 +46,8 @@ SPLIT = True
 NQUICK = 170
 NAIMED = 108
 NSPLIT = 36
+NSPLITEX = 24
+NRTL = 30
 
 # --------------------------------------------------------------------------------------------
 # rendering reference
@@ -81,23 +83,112 @@ def cwid(ch, pos):
     return 1
 
 
+# ---- base direction and visual order (dir.c / conf.h, ren.c ren_position, led.c led_pos) for the alphabet of the generators:
+# printable ASCII without backslash, `$`, backquote and apostrophe (the direction marks that need them never match), tabs,
+# the wide / two-byte characters above, the Arabic letters R2L (conf.h CR2L; base direction -1) and the Hebrew letters
+# HEBREW (in no table of conf.h: base direction of the `td` default).  REF.td is the text direction option (`td`, xtd) the
+# state is judged under: a property of the editor state like the buffer and the cursor -- set by EXINIT / `:se td=` / z> z<
+# and by nothing else (a prompt, answered or cancelled, leaves it alone).
+R2L = 'ابتثجحخدذرزسشصضطظعغفقكلمنهوي'
+HEBREW = 'אבגדהוזחטיכלמנסעפצקרשת'
+CNEUT = '-!"#$%&\'()*+,./:;<=>?@^_`{|}~ '
+RE_MARK_LR = __import__('re').compile('[%s][%s%s]*[%s]' % (R2L, __import__('re').escape(CNEUT), R2L, R2L))      # ctx +1: a run of R2L text, shown right-to-left
+RE_MARK_RL = __import__('re').compile('[a-zA-Z0-9_][^%s\\\\`$\']*[a-zA-Z0-9_]' % R2L)                      # ctx -1: a run of Latin text, shown left-to-right
+XLIM = 256
+
+
+class Ref:
+    td = 0          # xtd
+    order = 1       # xorder (never changed by the generators)
+
+
+REF = Ref()
+
+
+def norm_cp(cp):
+    """letter shaping (uc_shape: one presentation form per Arabic letter, C16/C17's subject) is undone before cells are compared"""
+    if 0xfb50 <= cp <= 0xfefc:
+        d = __import__('unicodedata').normalize('NFKC', chr(cp))
+        if len(d) == 1:
+            return ord(d)
+    return cp
+
+
+def dir_context(line):
+    """dir.c dir_context: the base direction of a line under REF.td"""
+    td = REF.td
+    if td > 1:
+        return 1
+    if td < -1:
+        return -1
+    if td == 0 and (not line or ord(line[0]) < 0x80):
+        return 1
+    if line and line[0] in R2L:
+        return -1
+    if line and (line[0].isascii() and (line[0].isalnum() or line[0] == '_')):
+        return 1
+    return -1 if td < 0 else 1
+
+
+def visual_order(line):
+    """ord[i] = the visual index of character i (dir.c dir_reorder / dir_fix); identity when ren_position takes its fast path"""
+    n = len(line)
+    order = list(range(n))
+    if n > XLIM or not (REF.order == 2 or (REF.order == 1 and any(ord(ch) >= 0x80 for ch in line))):
+        return order
+    ctx = dir_context(line)
+    rx = RE_MARK_RL if ctx < 0 else RE_MARK_LR
+    beg = 0
+    while beg < n:
+        m = rx.search(line, beg)
+        if not m:
+            break
+        b, e = m.span()
+        if ctx < 0:
+            order[b:e] = order[b:e][::-1]           # dir_reverse(ord, r_beg, r_end) in a right-to-left context
+        else:
+            order[b:e] = order[b:e][::-1]           # the mark's own direction is -1: dir_reverse(ord, c_beg, c_end)
+        beg = e
+    return order
+
+
 def layout(line):
-    """[(char, pos, wid)] of a line (without its newline)."""
-    out = []
+    """[(char, pos, wid)] of a line (without its newline), in buffer order; pos = ren_position (visual order under REF.td)."""
+    n = len(line)
+    order = visual_order(line)
+    if order == list(range(n)):
+        out = []
+        pos = 0
+        for ch in line:
+            w = cwid(ch, pos)
+            out.append((ch, pos, w))
+            pos += w
+        return out
+    off = [0] * n
+    for i, v in enumerate(order):
+        off[v] = i
+    out = [None] * n
     pos = 0
-    for ch in line:
-        w = cwid(ch, pos)
-        out.append((ch, pos, w))
+    for v in range(n):
+        i = off[v]
+        w = cwid(line[i], pos)
+        out[i] = (line[i], pos, w)
         pos += w
     return out
 
 
 def render(line, left, cols):
-    """cells (code points, 0 = second half of a wide character) of `line` in the window [left, left+cols)"""
+    """cells (code points, 0 = second half of a wide character) of `line` in the window [left, left+cols); a line whose
+    base direction is -1 is drawn from the right edge (led_pos)"""
     cells = [32] * cols
+    rtl = dir_context(line) < 0
     for ch, pos, w in layout(line):
-        b = pos - left
-        e = pos + w - 1 - left
+        if rtl:
+            b = left + cols - (pos + w - 1) - 1
+            e = left + cols - pos - 1
+        else:
+            b = pos - left
+            e = pos + w - 1 - left
         if b >= 0 and e < cols:
             if ch == '\t':
                 continue
@@ -587,6 +678,161 @@ def gen_split(rng, quick, k):
     return finish_case(rng, rows, cols, lines, atoms, 'split', quick)
 
 
+# ---- split windows + ex commands that write to the terminal themselves and wait for Enter
+
+
+def say_script(nlines, width):
+    """a shell script that prints `nlines` short lines, each ended by CR LF (the harness has no tty that would add the CR),
+    the first one after a CR LF of its own (the child starts writing where the prompt left the cursor)"""
+    return "printf '" + ''.join('\\r\\n' + ('out %d ' % (k + 1) + 'o' * width)[:width] for k in range(nlines)) + "\\r\\n'\n"
+
+
+def up_script(nlines, width):
+    """stdin (the buffer lines `:w !` sends) in upper case, cut to `width` characters, at most `nlines` lines, CR LF ended"""
+    return "printf '\\r\\n'; cut -c1-%d | tr a-z A-Z | sed %dq | sed 's/$/\\r/'; cat >/dev/null\n" % (width, nlines)
+
+
+def gen_splitex(rng, quick, k):
+    """two windows (^Ws) and ex commands that hand the terminal to something else -- `:w !cmd` and `:!cmd` (the child writes over
+    the rows below the message row of the ACTIVE window: from the upper window that is the lower window), multi-line `:p` /
+    `:g/../p` (printed through the scroll region of the active window) -- and then wait at "[enter to continue]" (vi_wait()
+    resets the scroll region to the whole screen): afterwards the tail of vi() has to repaint BOTH windows and to restore the
+    region of the active one.  The continue step is answered with Enter or left with ESC; then motions and scrolls in both
+    windows (a window that kept the whole-screen geometry lets the cursor leave its half)."""
+    rows = rng.choice([8, 9, 10, 11, 12, 13, 16, 24, 25])
+    cols = rng.choice([20, 30, 40])
+    hh = rows // 2 - 1
+    n = rng.choice([hh, hh + 2, 2 * hh + 1, 3 * hh + 2, 30, 40])
+    lines = gen_lines(rng, n, cols, 'plain')
+    g = Gen(rng, max(rows // 2, 2), cols, n)
+    e = lambda x: x.encode() if isinstance(x, str) else x
+    aux = {'say': say_script(rng.choice([1, 2, hh, hh + 1, rows - 2, rows + 2]), rng.choice([5, 8, cols - 1])),
+           'up': up_script(rng.choice([1, 2, 3, hh, rows]), rng.choice([4, 7, cols - 1]))}
+    wa = rng.chance(1, 2)
+
+    def printer():
+        a = rng.range(1, max(1, n - 2))
+        c = rng.choice([':w !sh up', ':w !sh up', ':w !sh up', ':w! !sh up', ':!sh say </dev/null', ':!sh say </dev/null',
+                        ':%d,%dp' % (a, a + rng.choice([1, 2, hh, hh + 2])), ':g/e/p', ':g/1/p', ':%d,%dw !sh up' % (a, a + 2),
+                        ':w other', ':w! other', ':%d=' % a, ':ec hello', ':b', ':w >>other', ':ft', ':%d,%dg/./p' % (a, a + 3)])
+        return e(c) + b'\n' + rng.choice([b'\n', b'\n', b'\n', ESC])
+
+    def moves():
+        out = []
+        for _ in range(rng.range(1, 3)):
+            out.append(rng.choice([b'j', b'k', e('%dj' % rng.choice([2, hh, hh + 1, 2 * hh])), e('%dk' % rng.choice([2, hh, hh + 1])), ctl('e'), ctl('y'), ctl('d'), ctl('u'),
+                                   e('%d' % rng.choice([2, hh])) + ctl('e'), b'G', b'1G', e('%dG' % rng.range(1, max(1, n))), b'L', b'H', b'Lj', b'Hk', b'$', b'w', ctl('f'), ctl('b')]))
+        return out
+    A = []
+    if rng.chance(1, 3):
+        A += [rng.choice([e('%dG' % rng.range(1, max(1, n))), ctl('d'), b'G'])]
+    A += [b'\x17s']
+    if rng.chance(1, 3):
+        A += moves()
+    if rng.chance(1, 3):
+        A += [b'\x17j']
+    for rnd in range(rng.range(2, 3)):
+        A += [printer()] + moves()
+        t = rng.below(10)
+        if t < 5:
+            A += [b'\x17' + rng.choice([b'j', b'k'])] + moves()
+        elif t < 6:
+            A += [b'\x17x'] + moves()
+        elif t < 7 and rnd:
+            A += [b'\x17' + rng.choice([b'o', b'c'])] + moves() + [printer()] + moves() + [b'\x17s']
+        if rng.chance(1, 3):
+            A += [rng.choice([b'x', b'dd', b'oq' + ESC, b'J', b'yyp', b'rZ', b'u'])]
+    case = finish_case(rng, rows, cols, lines, [a for a in A if a], 'splitex', quick, ['se wa'] if wa else [])
+    case['aux'] = aux
+    case['mid'] = []            # no probe points inside inserts (the other split stream has them): see streams_agree
+    return case
+
+
+# ---- right-to-left lines, the text direction option, prompts that are answered or cancelled
+
+
+def gen_rtl(rng, quick, k):
+    """buffers that mix left-to-right lines with lines whose base direction is right-to-left (first letter Arabic; first letter
+    Hebrew or a neutral character under a negative `td`; every line under td=-2), under td = default, +2, +1, -1, -2 (EXINIT,
+    `:se td=`, z> z< 2z> 2z<).  Rounds of: go to a line, a PROMPT -- `:` `/` `?` left with ESC or ^C (nothing is repainted), a
+    search answered with Enter (a motion, nothing is repainted), `:` commands (full repaint), a multi-line `:p` whose
+    "[enter to continue]" is answered or cancelled -- then operations that redraw single rows or scroll (j k x r ~ J D dd p
+    yyp A ^E ^Y u): the rows drawn by the partial redraw and the cell of the terminal cursor use the same base direction as the
+    rows drawn before the prompt (led_prompt edits its own line under td=+2 and restores the option on every way out)."""
+    rows = rng.choice([4, 5, 6, 8, 10])
+    cols = rng.choice([10, 20, 30, 40])
+    h = rows - 1
+    n = rng.choice([max(2, h - 1), h, h + 2, 2 * h + 1])
+    word = lambda ab, lo=2, hi=5: ''.join(rng.choice(ab) for _ in range(rng.range(lo, hi)))
+    lines = []
+    for i in range(n):
+        t = rng.below(12)
+        if t < 4:
+            s = ' '.join(word(R2L) for _ in range(rng.range(1, 3)))
+        elif t < 5:
+            s = word(R2L) + ' ' + word('abcdefgh') + ' ' + word(R2L)
+        elif t < 6:
+            s = ' '.join(word(R2L) for _ in range(rng.choice([cols // 4, cols // 3 + 1])))            # around / beyond the window width
+        elif t < 7:
+            s = word(HEBREW) + ' ' + word('xyz') + rng.choice(['', ' ' + word(HEBREW)])
+        elif t < 8:
+            s = rng.choice(['(', ' ', '.', '1']) + word('abcd') + rng.choice(['', ' ' + word(R2L)])
+        elif t < 9:
+            s = word('abcd') + ' ' + word(R2L) + ' ' + word(R2L) + rng.choice(['', ' ' + word('ef')])
+        elif t < 10:
+            s = ''
+        else:
+            s = 'line %d' % (i + 1) + rng.choice(['', ' ' + word('abcdefgh', 3, max(3, cols - 6))])
+        lines.append(s)
+    if not any(l[:1] in R2L for l in lines[:h] if l):
+        lines[rng.below(min(h, n))] = word(R2L) + ' ' + word(R2L)
+    g = Gen(rng, rows, cols, n)
+    e = lambda x: x.encode() if isinstance(x, str) else x
+    td0 = rng.choice([None, None, 2, 1, -1, -2, -1, -2])
+    opts = []
+    if td0 is not None:
+        opts.append('se td=%d' % td0)
+    if rng.chance(1, 3):
+        opts.append('se noshape')
+    rl = [i for i, l in enumerate(lines) if l[:1] in R2L or l[:1] in HEBREW] or [0]
+
+    def goto():
+        ln = rng.choice(rl) if rng.chance(2, 3) else rng.below(n)
+        near = max(0, min(n - 1, ln + rng.choice([-1, 1, -2, 1])))
+        return [e('%dG' % (near + 1)), rng.choice([b'', b'$', b'0', b'w', b'l', b'3l', b'e', b'ww'])]
+
+    def prompt():
+        t = rng.below(16)
+        pat = rng.choice(['line', 'a', 'b', 'e', 'zz', rng.choice(R2L), 'x'])
+        if t < 7:        # cancelled: nothing runs
+            return [rng.choice([b':', b':', b':abc', b':se td=2', b'/', e('/' + pat), b'?', e('?' + pat), b':1,2p', b':q']) + rng.choice([ESC, ESC, b'\x03'])]
+        if t < 10:       # a search answered with Enter: a motion
+            return [e(rng.choice(['/', '?']) + pat + '\n')]
+        if t < 11:
+            return [b':\n']
+        if t < 13:       # printed lines, then the continue step answered or cancelled
+            a = rng.range(1, max(1, n - 1))
+            return [e(':%d,%dp\n' % (a, min(n, a + rng.range(1, 3)))) + rng.choice([b'\n', ESC, b'\x03'])]
+        if t < 14:
+            return [e(rng.choice([':se ai', ':se noai', ':%d' % rng.range(1, n), ':se td=%d' % rng.choice([2, 1, -1, -2, 0])]) + '\n')]
+        if t < 15:
+            return [rng.choice([b'z>', b'z<', b'2z>', b'2z<'])]
+        return [e('/' + pat) + ESC, e('?' + pat + '\n')]
+
+    def partial():
+        out = []
+        for _ in range(rng.range(2, 4)):
+            out.append(rng.choice([b'j', b'k', b'j', b'k', b'x', b'rZ', b'~', b'J', b'D', b'dd', b'p', b'yyp', b'Aq' + ESC, b'ixy' + ESC, b'l', b'h', b'$', b'0', b'w',
+                                   ctl('e'), ctl('y'), b'u', b'2j', b'2k', b'X', b'.', b'+', b'-', b'ddP', b'>>']))
+        return out
+    A = []
+    for rnd in range(rng.range(2, 3)):
+        A += goto() + prompt() + partial()
+    case = finish_case(rng, rows, cols, lines, [a for a in A if a], 'rtl', quick, opts)
+    case['mid'] = []            # the in-insert oracle knows left-to-right rows only
+    return case
+
+
 # ---- probe points inside an insert
 
 INS1 = b'iaAIoOsSC'
@@ -656,11 +902,14 @@ def file_bytes(case):
 def run_keys(exe, case, keys, readback=(), timeout=20):
     env = {'EXINIT': case.get('exinit', '')}
     name = case.get('name', 'f')
-    r = vlib.run_vi(exe, keys, files={name: file_bytes(case)}, args=[name], readback=readback,
+    files = {name: file_bytes(case)}
+    for k, v in (case.get('aux') or {}).items():          # helper scripts of the `:!sh say` / `:w !sh up` commands
+        files[k] = v.encode('latin-1')
+    r = vlib.run_vi(exe, keys, files=files, args=[name], readback=readback,
                     rows=case['rows'], cols=case['cols'], timeout=timeout, env=env)
     if r.timed_out or r.crashed():
         with SERIAL:                    # confirm alone, with a 3x longer limit
-            r2 = vlib.run_vi(exe, keys, files={name: file_bytes(case)}, args=[name], readback=readback,
+            r2 = vlib.run_vi(exe, keys, files=files, args=[name], readback=readback,
                              rows=case['rows'], cols=case['cols'], timeout=3 * timeout, env=env)
         return r2
     return r
@@ -687,6 +936,14 @@ def run_probe(exe, case, pr):
     if pr[0] == 'cmd':
         a = run_keys(exe, case, p + QUIT)
         b = run_keys(exe, case, p + b'\x0c' + QUIT)
+        for _ in range(3):
+            # a program in which a child process writes to the terminal: both runs again if the two streams do not agree
+            # on the output of the prefix (see streams_agree)
+            if not child_writes(case) or any(r.timed_out or r.rc != 0 for r in (a, b)) or streams_agree(a.out, b.out):
+                break
+            with SERIAL:
+                a = run_keys(exe, case, p + QUIT)
+                b = run_keys(exe, case, p + b'\x0c' + QUIT)
         t = run_keys(exe, case, p + b'i' + MARK.encode() + ESC + WRITE + QUIT, readback=['out'])
         return a, b, t
     a = run_keys(exe, case, p + ESC + QUIT)
@@ -718,6 +975,21 @@ def cuts(sa, sb, rows):
     return cut, (k if k >= 0 else len(sb))
 
 
+def streams_agree(sa, sb):
+    """do the streams of run A (P :q!) and run B (P ^L :q!) agree on out(P)?  They do not when a child process wrote to the
+    terminal at another moment in one of them (`:!cmd`: cmd_pipe() forks first and writes term_done() afterwards -- the child's
+    first bytes and that sequence race; harmless for the final screen, but the common prefix then ends inside out(P))"""
+    cut = len(os.path.commonprefix([sa, sb]))
+    e = sa.rfind(b'\x1b', 0, cut)
+    if e >= 0 and not any(0x40 <= x <= 0x7e for x in sa[e + 2:cut]):
+        cut = e
+    return bool(sa[cut:]) and sb.endswith(sa[cut:])
+
+
+def child_writes(case):
+    return bool(case.get('aux'))
+
+
 def cut_ins(sa, st):
     """inside an insert: A = out(P) + out(ESC ...), T = out(P) + out(@ ...).  The output of ESC starts with an absolute
     cursor address (vi_drawfix / the tail of vi()), the output of a typed character with CR (led_print on the current row)."""
@@ -735,7 +1007,7 @@ def parse_snap(s):
     err, r, c, top, bot = [int(x) for x in head.split()]
     rows = [[int(v) for v in row.split(',')] for row in cells.split(';')]
     return {'err': err, 'r': r, 'c': c, 'top': top, 'bot': bot,
-            'cp': [[v % ATTR_SHIFT for v in row] for row in rows],
+            'cp': [[norm_cp(v % ATTR_SHIFT) for v in row] for row in rows],
             'at': [[v // ATTR_SHIFT for v in row] for row in rows]}
 
 
@@ -822,6 +1094,8 @@ def geometry(rows, split, act):
 def is_alt(atom, split_before):
     """does the command make the tail of vi() repaint the OTHER window (mod & VC_ALT)?"""
     b = atom.lstrip(DIGITS)
+    if cancelled_prompt(atom):
+        return False
     if b[:1] == b':':
         body = b[1:].split(b'\n')[0]
         return body not in (b'', b'w')
@@ -831,6 +1105,35 @@ def is_alt(atom, split_before):
     if k == b's':
         return not split_before
     return k in (b'j', b'k', b'x') and split_before
+
+
+TD_Z = __import__('re').compile(rb'^(\d*)z([<>])$')
+TD_SE = __import__('re').compile(r'se td=(-?\d+)')
+
+
+def td_after(case, i):
+    """the text direction option (xtd) after the first i commands: EXINIT / `:se td=N` set it, z> z< [2z> 2z<] set +1 -1 [+2 -2];
+    nothing else does -- in particular no prompt, whether it is answered or cancelled (led_prompt edits its line under +2 and
+    puts the old value back)"""
+    td = 0
+    for m in TD_SE.finditer(case.get('exinit', '')):
+        td = int(m.group(1))
+    for a in case['atoms'][:i]:
+        b = bytes.fromhex(a)
+        m = TD_Z.match(b)
+        if m:
+            td = 1 if m.group(2) == b'>' else -1
+            if int(m.group(1) or b'0') > 1:
+                td *= 2
+        elif b[:1] == b':' and b.endswith(b'\n'):
+            for m in TD_SE.finditer(b.split(b'\n')[0].decode('latin-1')):
+                td = int(m.group(1))
+    return td
+
+
+def cancelled_prompt(atom):
+    """a `:` `/` `?` prompt left with ESC or ^C: nothing is executed, nothing but the message row is drawn (mod = 0)"""
+    return atom[:1] in (b':', b'/', b'?') and atom[-1:] in (ESC, b'\x03') and b'\n' not in atom
 
 
 def view(st, off, h):
@@ -845,7 +1148,7 @@ def view(st, off, h):
 def renderable(buf):
     for l in buf:
         for ch in l:
-            if ch == '\t' or ch in WIDE or ch in NARROW2 or is_ctl(ch):
+            if ch == '\t' or ch in WIDE or ch in NARROW2 or is_ctl(ch) or ch in R2L or ch in HEBREW:
                 continue
             if not (32 <= ord(ch) < 127):
                 return False
@@ -871,9 +1174,15 @@ def check_at(st, buf, xrow, xoff, top, left, h, cols):
     if st['r'] != xrow - top:
         return 'terminal cursor on another row than the cursor line'
     pos, wid = cursor_cells(buf, xrow, xoff)
-    if not (pos <= st['c'] + left < pos + wid):
+    if not (pos <= cell_pos(buf, xrow, st['c'], left, cols) < pos + wid):
         return 'terminal cursor not on the cell of the cursor character'
     return None
+
+
+def cell_pos(buf, xrow, c, left, cols):
+    """the visual position (ren_position units) shown in terminal column c of the row of line xrow (vi_pos / led_pos inverted)"""
+    line = buf[xrow] if xrow < len(buf) else ''
+    return c + left if dir_context(line) >= 0 else left + cols - 1 - c
 
 
 def maxwidth(buf):
@@ -887,7 +1196,8 @@ def explain(st, buf, xrow, xoff, h, cols):
     if xrow - st['r'] >= 0:
         tops.append(xrow - st['r'])
     lefts = [0]
-    for c in (pos - st['c'], pos + wid - 1 - st['c']):
+    rtl = dir_context(buf[xrow] if xrow < len(buf) else '') < 0
+    for c in ((pos + st['c'] + 1 - cols, pos + wid + st['c'] - cols) if rtl else (pos - st['c'], pos + wid - 1 - st['c'])):
         if c > 0 and c not in lefts:
             lefts.append(c)
     best = None
@@ -1024,6 +1334,7 @@ def judge(case, pr, runs, snaps, prev=None):
     i = pr[1]
     split, act = layout_after(case, i)
     (woff, h), inact = geometry(rows, split, act)
+    REF.td = td_after(case, i)
     for r in (a, b, t):
         if r is None:
             continue
@@ -1034,7 +1345,7 @@ def judge(case, pr, runs, snaps, prev=None):
         return {'status': 'skip', 'what': 'twin run gave no unique cursor marker'}
     buf, xrow, xoff = tw
     st, st2 = snaps
-    out = {'status': 'ok', 'buf': buf, 'xrow': xrow, 'xoff': xoff, 'st': st, 'split': split, 'act': act}
+    out = {'status': 'ok', 'buf': buf, 'xrow': xrow, 'xoff': xoff, 'st': st, 'split': split, 'act': act, 'td': REF.td}
     if st['err'] or (st2 and st2['err']):
         out.update(status='fail', what='the stream contains a sequence the terminal model does not know, or text past the right margin',
                    observed={'errors': st['err'] + (st2['err'] if st2 else 0)}, expected={'errors': 0})
@@ -1275,6 +1586,7 @@ def run(ctx):
     else:
         cases += corpus_cases()
         ng, na, ns = (NQUICK, NAIMED, NSPLIT) if ctx.quick else (2600, 1000, 400)
+        nx, nr = (NSPLITEX, NRTL) if ctx.quick else (300, 400)
         for k in range(ng):
             cases.append(gen_case(rng.fork('case%d' % k), ctx.quick, k))
         for k in range(na):
@@ -1282,6 +1594,10 @@ def run(ctx):
         if SPLIT:
             for k in range(ns):
                 cases.append(gen_split(rng.fork('split%d' % k), ctx.quick, k))
+            for k in range(nx):
+                cases.append(gen_splitex(rng.fork('splitex%d' % k), ctx.quick, k))
+        for k in range(nr):
+            cases.append(gen_rtl(rng.fork('rtl%d' % k), ctx.quick, k))
     # all runs of all probe points
     jobs = [(ci, pr) for ci, c in enumerate(cases) for pr in probes_of(c)]
     runs = vlib.pmap(lambda j: run_probe(exe, cases[j[0]], j[1]), jobs)
@@ -1474,6 +1790,8 @@ def atom_kind(a):
         return None
     if insert_body(a):
         return 'an insert or change' + (' with typed newlines' if b'\n' in a else '')
+    if cancelled_prompt(a):
+        return 'a cancelled prompt'
     if b[:1] == b':':
         return 'an ex command line'
     if b in (b'u', b'uu'):
@@ -1521,8 +1839,9 @@ def wfix_correspondence(ctx, model, cases, results):
         if pr[0] != 'cmd' or i == 0 or r['status'] != 'ok' or r.get('top') is None:
             continue
         p = results.get((ci, ('cmd', i - 1)))
-        if not p or p['status'] != 'ok' or p.get('top') is None:
+        if not p or p['status'] != 'ok' or p.get('top') is None or p.get('td') != r.get('td'):
             continue
+        REF.td = r.get('td', 0)
         c = cases[ci]
         last = bytes.fromhex(c['atoms'][i - 1])
         if not is_plain_motion(last):
@@ -1595,8 +1914,9 @@ def put_correspondence(ctx, model, cases, results):
         if not pc:
             continue
         p = results.get((ci, ('cmd', i - 1)))
-        if not p or p['status'] != 'ok' or p.get('top') is None or p.get('left') is None:
+        if not p or p['status'] != 'ok' or p.get('top') is None or p.get('left') is None or p.get('td') != r.get('td'):
             continue
+        REF.td = r.get('td', 0)
         if (p.get('split'), p.get('act')) != (r.get('split'), r.get('act')) or not renderable(r['buf']) or not renderable(p['buf']):
             continue
         (woff, h), _ = geometry(c['rows'], r.get('split'), r.get('act'))
